@@ -28,10 +28,14 @@ def vectors():
         shutil.rmtree(tmp, ignore_errors=True)
 
 
+# a well-formed PEM SubjectPublicKeyInfo whose algorithm identifier (1.2.3.4) no library knows: not a key the daemon can use
+PEM_UNKNOWN_ALGORITHM = '-----BEGIN PUBLIC KEY-----\nMA8wBwYDKgMEBQADBAABAgM=\n-----END PUBLIC KEY-----\n'
+
+
 def to_py(v, pems):
     k = v['k']
     if k == 'str':
-        return {'PEM-PRIVATE': pems['A']['priv'], 'PEM-PUBLIC': pems['B']['pub']}.get(v['v'], v['v'])
+        return {'PEM-PRIVATE': pems['A']['priv'], 'PEM-PUBLIC': pems['B']['pub'], 'PEM-UNKNOWN-ALGORITHM': PEM_UNKNOWN_ALGORITHM}.get(v['v'], v['v'])
     if k == 'int':
         return v['v']
     if k == 'neg':
